@@ -6,6 +6,7 @@ CONSTANTS
   Depth = 1
   CatCut = 2
   WordCut = 2
+  Mode = "train"
   AfixCut = 2
   SpellOf <- MCSpellOf
 INVARIANT FilesAreTheCounts
@@ -13,6 +14,7 @@ INVARIANT OneSamplePerKeptTree
 INVARIANT ReservedWordsAlwaysWritten
 INVARIANT SeenRulesOverTargetsOnly
 INVARIANT AfixReservedAlwaysWritten
+INVARIANT ConllBlocksAreHeadFirstTrees
 INVARIANT FourAffixesPerLeaf
 INVARIANT ShortWordsFeedTheMarkers
 INVARIANT BankIsTheTrees
